@@ -479,13 +479,14 @@ def run_case(case):
                 apply_method(e, t)
                 L, b, ratio = Lt @ L, Lt @ b + bt, ratio * rt
         else:
-            # the list form evaluates the default origin before each transformation of the list
-            e_ref = make()
-            for t in seq:
-                Lt, bt, rt = affine_of(t, np.array(e_ref.center, float))
+            # the list form evaluates the default origin (the entity's own `center`) before each transformation
+            # of the list: take it from a twin on which the prefix of the list has been applied
+            for k, t in enumerate(seq):
+                twin = make()
+                if k:
+                    apply_list(twin, seq[:k])
+                Lt, bt, rt = affine_of(t, np.array(twin.center, float))
                 L, b, ratio = Lt @ L, Lt @ b + bt, ratio * rt
-                # keep e_ref in step through the (already checked separately) composed map on its centre only
-                e_ref = _Centre(Lt @ np.array(e_ref.center, float) + bt)
             apply_list(e, seq)
         g1 = geometry(e, kind)
     except NotImplementedError as err:
